@@ -19,7 +19,7 @@ Import ListNotations.
 From BB Require Import BN Brute SpaceFacts TrapFacts PercolateFacts AttractorFacts Diagram Invariants Checks Filter
   Strict PetriNet Control Meta FilterFacts PetriNetFacts TrappistFacts DiagramStruct DiagramSem1 DiagramCache
   DiagramDepth DiagramComplete Termination ControlFacts MetaFacts Candidates StrictFacts MinExpandFacts CandidatesFacts SymbolicTest SymbolicTestFacts Signed ReductionFacts ControlFacts2 Main Blocks BlocksFacts ObsFacts OwnerFacts CandidatesTerm
-  PartialOwner BlockMath BlockComplete ASeeds ASeedsFacts LogChecks SkipRule SkipRuleFacts Names NamesFacts Perm PermFacts SCC SCCFacts SCCStruct ControlFacts3 SCCTerm FilterSym Main2 StrategyFacts ControlFacts4 PyLib PySrc PySrcFacts SkipRuleFacts2 SCCComplete SCCAttr.
+  PartialOwner BlockMath BlockComplete ASeeds ASeedsFacts LogChecks SkipRule SkipRuleFacts Names NamesFacts Perm PermFacts SCC SCCFacts SCCStruct ControlFacts3 SCCTerm FilterSym Main2 StrategyFacts ControlFacts4 PyLib PySrc PySrcFacts SkipRuleFacts2 SCCComplete SCCAttr BlockComplete2.
 
 Theorem C03_bfs_complete : forall (fuel : nat) (N : net) (cfg : config) (d d' : sd), 1 <= max_motifs cfg -> SWF N d -> NoStubEdges d -> EdgeStrict d -> Rooted d -> expand_bfs fuel N cfg d None None None = (d', RBool true) -> AllExpanded d'.
 Proof. exact bfs_complete. Qed.
@@ -131,6 +131,13 @@ Proof. exact expand_scc_LeafOK. Qed.
 Theorem C03_scc_expansion_all_expanded : forall (fuel : nat) (N : net) (cfg : config) (d' : sd) (maa : bool) (tape : tape_t), 1 <= max_motifs cfg -> expand_scc fuel N cfg (init N) maa tape = (d', RBool true) -> AllExpanded d'.
 Proof. exact expand_scc_AllExpanded. Qed.
 
+(* after the D18 fix block expansion needs no fresh diagram *)
+Theorem C03_block_expansion_complete_from_any_plain_diagram : forall (fuel : nat) (N : net) (cfg : config) (d d' : sd) (maa opt : bool) (sz : option nat) (tape : list bool), 1 <= max_motifs cfg -> PlainInv N d -> expand_block fuel N cfg d maa opt sz tape = (d', RBool true) -> MinFound N d'.
+Proof. exact expand_block_MinFound_from. Qed.
+
+Theorem C03_block_expansion_leaves_minimal_from : forall (fuel : nat) (N : net) (cfg : config) (d : sd) (maa opt : bool) (sz : option nat) (tape : list bool), 1 <= max_motifs cfg -> PlainInv N d -> LeafOK N d -> LeafOK N (fst (expand_block fuel N cfg d maa opt sz tape)).
+Proof. exact expand_block_LeafOK_from. Qed.
+
 (* non-vacuity: two bistable switches; x0'=x1, x1'=x0, x2'=x3, x3'=x2 *)
 Definition ex_sw : net := [fun s => nth 1 s false; fun s => nth 0 s false; fun s => nth 3 s false; fun s => nth 2 s false].
 Definition ex_cfg : config := {| max_motifs := 1000 |}.
@@ -172,3 +179,5 @@ Print Assumptions C03_scc_expansion_grows.
 Print Assumptions C03_scc_expansion_complete.
 Print Assumptions C03_scc_expansion_leaves_minimal.
 Print Assumptions C03_scc_expansion_all_expanded.
+Print Assumptions C03_block_expansion_complete_from_any_plain_diagram.
+Print Assumptions C03_block_expansion_leaves_minimal_from.
